@@ -1,13 +1,182 @@
-(* C17 — property theorems only.  Each is closed by `exact <lemma>` and followed by Print Assumptions. *)
-From Coq Require Import List NArith Bool String.
-From Verif.C17 Require Import Model Spec Proofs.
+(* C17 — property theorems only.  Each is closed by `exact <lemma>` and followed by Print Assumptions.
+
+   Reading guide.  `apply cfg p s e` is RouteTable.Apply() on state s over kernel e with netlink failure plan p
+   (any subset of calls failing, any way); `tbl cfg e k` is the kernel route for destination key k in Felix's
+   table; `s_desired s` is the tracker's desired side; `winner cfg s k` is the conflict-resolution result over
+   the per-class desired routes and the interface view; `kroute_is_ours` is the ownership policy applied to a
+   kernel route; `in_grace` is the route-cleanup grace period of a recently seen workload interface. *)
+From Coq Require Import List NArith Bool String Permutation.
+From Verif.C17 Require Import Model Spec Proofs ProofsAttempt ProofsWinner ProofsApply.
 Import ListNotations.
 Open Scope N_scope.
 
-(* recalculateDesiredKernelRoute(k) leaves exactly the conflict-resolution winner as the desired route of k and
-   does not touch any other destination. *)
+(* ------------------------------------------------------------------------------------------------
+   Conflict resolution.
+   ------------------------------------------------------------------------------------------------ *)
+
+(* recalculateDesiredKernelRoute(k) leaves exactly the winner as the desired route of k and touches no other key. *)
 Theorem c17_recalc_sets_winner : forall cfg k s,
   lookup rkey_eqb (s_desired (recalc cfg k s)) k = winner cfg s k
   /\ forall k', k <> k' -> lookup rkey_eqb (s_desired (recalc cfg k s)) k' = lookup rkey_eqb (s_desired s) k'.
 Proof. exact recalc_sets_winner. Qed.
 Print Assumptions c17_recalc_sets_winner.
+
+(* The winner of a destination is a desired route of the numerically lowest class among those whose interface
+   is known and up (ties inside a class: highest ifindex); there is no winner iff no desired route is usable. *)
+Theorem c17_conflict_by_class_priority : forall cfg s k r, winner cfg s k = Some r ->
+  exists c n t idx, In ((c, n, k), t) (s_routes s) /\ usable s n idx /\ r = render cfg t idx /\
+    forall c' n' t' idx', In ((c', n', k), t') (s_routes s) -> usable s n' idx' -> c < c' \/ (c = c' /\ idx' <= idx).
+Proof. exact winner_by_class_priority. Qed.
+Print Assumptions c17_conflict_by_class_priority.
+
+Theorem c17_no_winner_iff_nothing_usable : forall cfg s k, winner cfg s k = None <->
+  forall c n t idx, In ((c, n, k), t) (s_routes s) -> ~ usable s n idx.
+Proof. exact winner_none. Qed.
+Print Assumptions c17_no_winner_iff_nothing_usable.
+
+(* ... and it does not depend on the order in which the desired routes are stored or visited (Go map order). *)
+Theorem c17_winner_order_independent : forall cfg s s' k,
+  Permutation (s_routes s) (s_routes s') -> s_n2i s = s_n2i s' -> s_istate s = s_istate s' ->
+  NoDup (keys (s_routes s)) -> wf_ifaces s ->
+  winner cfg s k = winner cfg s' k.
+Proof. exact winner_order_independent. Qed.
+Print Assumptions c17_winner_order_independent.
+
+(* For EVERY history of SetRoutes / RouteUpdate / RouteRemove / OnIfaceStateChanged / QueueResync(Iface) calls and
+   outside-world events, in any order (interface events must not hand an ifindex still held by another name to a new
+   name: the interface monitor reports the deletion first), the desired side of the tracker is, for every destination,
+   exactly the winner computed from the CURRENT per-class routes and interface view: no hysteresis, no dependence on
+   the order in which the classes' updates arrived. *)
+Theorem c17_desired_tracks_winner : forall cfg ops e,
+  wf_hist cfg ops (st0, e) ->
+  forall k, lookup rkey_eqb (s_desired (fst (run_st cfg ops (st0, e)))) k = winner cfg (fst (run_st cfg ops (st0, e))) k.
+Proof. exact desired_tracks_winner_from_start. Qed.
+Print Assumptions c17_desired_tracks_winner.
+
+(* ------------------------------------------------------------------------------------------------
+   Convergence of Apply.  From ANY RouteTable state (s_full = a full resync is pending, as at start of day and after
+   QueueResync), ANY kernel contents that form a finite map, and ANY netlink failure plan: if Apply() returns nil and
+   the attempt that produced the result is one that ran the full resync, then
+     - every desired route is in the kernel exactly                                        (c17_converges)
+     - a route of ours with no desired route is gone, unless its interface is in its grace period (c17_stale_removed)
+     - routes in other tables, and routes that are not ours at destinations we do not want, are untouched
+                                                                                            (c17_foreign_untouched)
+   Together with c17_desired_tracks_winner the desired routes are the class-priority winners.
+   What is NOT covered (hence c17_any_history_partial below): the Apply whose first attempt completes the full resync,
+   fails later, and whose inline retry (per-interface resync only) succeeds; and Applies with no full resync pending.
+   For those the statement is FALSE of the pinned code (c17_any_history_refuted_A, _B), and holds on every generated
+   history once the two fixes/C17 patches are applied (correspondence run on the patched tree; c17_fixed_model_witnesses). *)
+Theorem c17_converges : forall cfg p s e s' e',
+  NoDup (keys (e_routes e)) -> s_full s = true -> last_attempt_full cfg p s e = true ->
+  apply cfg p s e = (false, s', e') ->
+  forall k d, lookup rkey_eqb (s_desired s') k = Some d -> tbl cfg e' k = Some d.
+Proof. exact apply_converges. Qed.
+Print Assumptions c17_converges.
+
+Theorem c17_stale_removed : forall cfg p s e s' e',
+  NoDup (keys (e_routes e)) -> s_full s = true -> last_attempt_full cfg p s e = true ->
+  apply cfg p s e = (false, s', e') ->
+  forall k r, lookup rkey_eqb (s_desired s') k = None -> tbl cfg e' k = Some r ->
+       kroute_is_ours cfg s' r = true -> in_grace cfg (e_now e') s' (kr_ifx r) = true.
+Proof. exact apply_stale_removed. Qed.
+Print Assumptions c17_stale_removed.
+
+Theorem c17_foreign_untouched : forall cfg p s e s' e',
+  NoDup (keys (e_routes e)) -> s_full s = true -> last_attempt_full cfg p s e = true ->
+  apply cfg p s e = (false, s', e') ->
+  forall kk r, lookup kkey_eqb (e_routes e) kk = Some r ->
+       (fst kk <> c_table cfg \/ (kroute_is_ours cfg s' r = false /\ lookup rkey_eqb (s_desired s') (snd kk) = None)) ->
+       lookup kkey_eqb (e_routes e') kk = Some r.
+Proof. exact apply_foreign_untouched. Qed.
+Print Assumptions c17_foreign_untouched.
+
+(* The same three facts for a single attemptApply with the full resync pending, from ANY state whatsoever (not only
+   reachable ones), any kernel, any failure plan: this is the "from any starting kernel state and across netlink
+   failures" part; interface churn before the attempt is arbitrary because the state is arbitrary. *)
+Theorem c17_any_history_partial : forall cfg p w w',
+  NoDup (keys (e_routes (w_env w))) ->
+  s_full (w_st w) = true ->
+  attempt cfg p w = (false, w') ->
+  s_rescan (w_st w') = [] ->
+  (forall k d, lookup rkey_eqb (s_desired (w_st w')) k = Some d -> tbl cfg (w_env w') k = Some d) /\
+  (forall k r, lookup rkey_eqb (s_desired (w_st w')) k = None -> tbl cfg (w_env w') k = Some r ->
+       kroute_is_ours cfg (w_st w') r = true -> in_grace cfg (e_now (w_env w')) (w_st w') (kr_ifx r) = true) /\
+  (forall kk r, lookup kkey_eqb (e_routes (w_env w)) kk = Some r ->
+       (fst kk <> c_table cfg \/
+        (kroute_is_ours cfg (w_st w') r = false /\ lookup rkey_eqb (s_desired (w_st w')) (snd kk) = None)) ->
+       lookup kkey_eqb (e_routes (w_env w')) kk = Some r).
+Proof. exact full_attempt_converges. Qed.
+Print Assumptions c17_any_history_partial.
+
+(* kernel tables produced by outside-world steps stay finite maps (the NoDup hypothesis above) *)
+Theorem c17_env_stays_a_map : forall o e, NoDup (keys (e_routes e)) -> NoDup (keys (e_routes (env_step o e))).
+Proof. exact env_step_nodup. Qed.
+Print Assumptions c17_env_stays_a_map.
+
+(* ------------------------------------------------------------------------------------------------
+   Findings: the full statement is false of the faithful model of the pinned code.
+   ------------------------------------------------------------------------------------------------ *)
+Definition cfg_pinned : config := mkcfg (PMain ["cali"%string] true [] [3; 80] [80] false) 254 3 0 0 false false.
+Definition cfg_fixed : config := mkcfg (PMain ["cali"%string] true [] [3; 80] [80] false) 254 3 0 0 true true.
+
+(* A: interface flaps, both events reported, the per-interface route listing of the next Apply fails:
+      Apply() = nil, the flushed route is not restored, nothing is queued. *)
+Definition witness_A : list op :=
+  [ESetLink "cali1" (mkl 11 true true); OIface "cali1" 11 IfUp;
+   ORouteUpdate 0 "cali1" (rk 0 0) (mkt TLinkLocal 0 0 0 0); OApply [];
+   ESetLink "cali1" (mkl 11 true false); EFlush 11; OIface "cali1" 11 IfDown;
+   ESetLink "cali1" (mkl 11 true true); OIface "cali1" 11 IfUp;
+   OApply [pl (NRouteListIf 11) 0 FErr]].
+
+(* B: a destination moves to an interface that has just come up, RouteReplace fails in both attempts, then the
+      destination is no longer wanted: Apply() = nil with Felix's old route still in the kernel. *)
+Definition witness_B : list op :=
+  [ESetLink "eth0" (mkl 31 true true); OIface "eth0" 31 IfUp;
+   ORouteUpdate 4 "eth0" (rk 0 0) (mkt TVXLAN 1 0 80 0);
+   ORouteUpdate 0 "cali1" (rk 0 0) (mkt TLinkLocal 0 0 0 0); OApply [];
+   ESetLink "cali1" (mkl 11 true true); OIface "cali1" 11 IfUp;
+   OApply [pl (NReplace (rk 0 0)) 0 FErr; pl (NReplace (rk 0 0)) 1 FErr];
+   ORouteRemove 0 "cali1" (rk 0 0); ORouteRemove 4 "eth0" (rk 0 0); OApply []].
+
+Theorem c17_any_history_refuted_A :
+  exists ops, let obs := run cfg_pinned ops (st0, env0) in
+    ok_history cfg_pinned ops obs = false /\ forallb (fun o => negb (fst o)) obs = true.
+Proof. exists witness_A. vm_compute. split; reflexivity. Qed.
+Print Assumptions c17_any_history_refuted_A.
+
+Theorem c17_any_history_refuted_B :
+  exists ops, let obs := run cfg_pinned ops (st0, env0) in
+    ok_history cfg_pinned ops obs = false /\ snd (last obs (true, [(kk 0 0 0, mkr 0 0 0 0 false 0 0 0)])) <> [].
+Proof. exists witness_B. vm_compute. split; [reflexivity|discriminate]. Qed.
+Print Assumptions c17_any_history_refuted_B.
+
+(* with both patches the same histories satisfy the specification oracle *)
+Example c17_fixed_model_witnesses :
+  ok_history cfg_fixed witness_A (run cfg_fixed witness_A (st0, env0)) = true /\
+  ok_history cfg_fixed witness_B (run cfg_fixed witness_B (st0, env0)) = true.
+Proof. vm_compute. split; reflexivity. Qed.
+
+(* ------------------------------------------------------------------------------------------------
+   Non-vacuity.
+   ------------------------------------------------------------------------------------------------ *)
+(* a start-of-day Apply over a kernel holding a stale route of ours, a foreign route and a route in another table;
+   LinkList fails in the first attempt (so the full resync is still pending for the inline retry) and the retry's
+   first route listing is interrupted (EINTR) and repeated: the hypotheses of c17_converges / c17_stale_removed /
+   c17_foreign_untouched hold and so do their conclusions, computed. *)
+Definition ex_ops : list op :=
+  [ESetLink "cali1" (mkl 11 true true); ESetLink "eth0" (mkl 31 true true);
+   EAddRoute (kk 254 5 0) (mkr 1 253 0 3 false 0 11 0);      (* stale, ours (workload interface) *)
+   EAddRoute (kk 254 6 0) (mkr 1 253 0 4 false 0 31 0);      (* somebody else's *)
+   EAddRoute (kk 100 0 0) (mkr 1 253 0 3 false 0 11 0);      (* another table *)
+   ORouteUpdate 0 "cali1" (rk 0 0) (mkt TLinkLocal 0 0 0 0);
+   ORouteUpdate 4 "eth0" (rk 0 0) (mkt TVXLAN 1 0 80 0)].
+
+Example c17_example_hypotheses_satisfiable :
+  let '(s, e) := run_st cfg_pinned ex_ops (st0, env0) in
+  let p := [pl NRouteListAll 0 FEintr; pl NLinkList 0 FErr] in
+  s_full s = true /\ last_attempt_full cfg_pinned p s e = true /\
+  (let '(err, s', e') := apply cfg_pinned p s e in
+   err = false /\ tbl cfg_pinned e' (rk 0 0) = Some (mkr 1 253 0 3 false 0 11 0) /\ tbl cfg_pinned e' (rk 5 0) = None /\
+   tbl cfg_pinned e' (rk 6 0) = Some (mkr 1 253 0 4 false 0 31 0) /\
+   lookup kkey_eqb (e_routes e') (kk 100 0 0) = Some (mkr 1 253 0 3 false 0 11 0)).
+Proof. vm_compute. repeat split; reflexivity. Qed.
